@@ -75,3 +75,115 @@ Lemma stride_placement_ok :
 Proof.
   split; [exact stride_first_ok|]. split; [exact any_stride_ok|]. split; reflexivity.
 Qed.
+
+(* ------------------------------------------------------------------ ... and not only up to the verdict: the
+   endpoint chain computes the very same result (same final packet, same marks) either way *)
+Section Exact.
+  Variable c : cfg.
+  Variable e : env.
+  Variable cs : chains.
+  Variable v : ipver.
+  Variable ec : ecfg.
+  Hypothesis Hmarks : marks_ok c = true.
+  Let F := marks_facts c Hmarks.
+  Variables ret first : nat -> bool.
+  Hypothesis Hfirst : forall k, first k = true -> k = 0%nat \/ ret k = true.
+  Variable f : nat.
+  Variable rs : list irule.
+
+  (* what the endpoint chain does with the result of the group chain *)
+  Definition after_group (res : result) : result :=
+    match res with
+    | RFall p' | RReturn p' => go cs e (run (S (S f)) cs e) (ret_rules ec c ++ rs) p'
+    | o => o
+    end.
+
+  Lemma after_group_collapse : forall r1 r2, collapse r1 = collapse r2 -> after_group r1 = after_group r2.
+  Proof. intros r1 r2 H. destruct r1, r2; cbn in H; try discriminate; inversion H; reflexivity. Qed.
+
+  Lemma inlined_skip : forall l p, st c false true (pk_mark p) ->
+    go cs e (run (S (S f)) cs e) (flat_map (fun q => mk [pass_clear c] (AJump (mp_name q)) :: ret_rules ec c) l ++ rs) p
+    = go cs e (run (S (S f)) cs e) rs p.
+  Proof.
+    intros l p Hst. rewrite <- unit_jumps_singletons. apply units_skip; assumption.
+  Qed.
+
+  Lemma policy_run_fuel : forall q p, run (S f) cs e (policy_body c v (mp_rules q)) p = run (S (S f)) cs e (policy_body c v (mp_rules q)) p.
+  Proof. intros. rewrite !run_jump_free by apply policy_body_jump_free. reflexivity. Qed.
+
+  Lemma group_inline_exact_gen : forall pols k p,
+    pols_in_cs c e cs v pols -> wfp v p -> st c false false (pk_mark p) ->
+    after_group (go cs e (run (S f) cs e) (group_rules_gen ret first c k pols) p)
+    = go cs e (run (S (S f)) cs e) (inlined_jumps ec c pols ++ rs) p.
+  Proof.
+    induction pols as [|q pols IH]; intros k p Hin Hw Hst.
+    - cbn [group_rules_gen go after_group]. unfold inlined_jumps. cbn [nonstaged filter flat_map app].
+      apply (ret_rules_skip c e cs Hmarks ec _ _ _ false Hst).
+    - assert (Hin' : pols_in_cs c e cs v pols) by (intros q' Hq'; apply Hin; right; exact Hq').
+      cbn [group_rules_gen]. unfold inlined_jumps, nonstaged. cbn [filter]. fold (nonstaged pols).
+      destruct (mp_staged q) eqn:Es; cbn [negb]; [apply IH; assumption|].
+      cbn [flat_map]. fold (inlined_jumps ec c pols).
+      destruct (Hin q (or_introl eq_refl) Es) as [L Hok].
+      (* left: skip a return rule, take the jump *)
+      assert (Step : go cs e (run (S f) cs e)
+                 ((if ret k then [mk [MMark true 0 (verdict_bits c)] AReturn] else [])
+                  ++ mk (if first k then [] else [MMark false 0 (verdict_bits c)]) (AJump (mp_name q))
+                     :: group_rules_gen ret first c (S k) pols) p
+               = match run (S f) cs e (policy_body c v (mp_rules q)) p with
+                 | RFall p' | RReturn p' => go cs e (run (S f) cs e) (group_rules_gen ret first c (S k) pols) p'
+                 | o => o end).
+      { assert (Hm : matches e p (if first k then [] else [MMark false 0 (verdict_bits c)]) = true).
+        { destruct (first k); [reflexivity|]. rewrite (m_verdict_clear c F e p false false Hst). reflexivity. }
+        destruct (ret k); cbn [app].
+        - rewrite go_skip by (cbn [ir_match mk]; rewrite (m_verdict_set c F e p false false Hst); reflexivity).
+          apply go_jump; assumption.
+        - apply go_jump; assumption. }
+      rewrite Step. clear Step.
+      (* right: take the jump *)
+      rewrite <- app_assoc. cbn [app].
+      rewrite (go_jump e cs _ _ _ _ _ _ (m_pass_clear c F e p false false Hst) L).
+      rewrite <- policy_run_fuel.
+      pose proof (policy_unit c e cs v Hmarks f q Es Hok p Hw Hst) as X.
+      destruct (policy_verdict (e_sets e) (mp_rules q) p); cbn [body_result] in X.
+      + destruct X as (p' & X1 & X2 & X3).
+        assert (E : forall K1 K2 : packet -> result, K1 p' = K2 p' ->
+                  match run (S f) cs e (policy_body c v (mp_rules q)) p with RFall x | RReturn x => K1 x | o => o end
+                  = match run (S f) cs e (policy_body c v (mp_rules q)) p with RFall x | RReturn x => K2 x | o => o end).
+        { intros K1 K2 HK. destruct (run (S f) cs e (policy_body c v (mp_rules q)) p); cbn in X1; try discriminate; inversion X1; subst; exact HK. }
+        rewrite (after_group_collapse _ (RFall p')).
+        * cbn [after_group].
+          transitivity (go cs e (run (S (S f)) cs e) (ret_rules ec c ++ inlined_jumps ec c pols ++ rs) p').
+          -- rewrite (ret_rules_fire c e cs Hmarks ec _ _ _ false X3), (ret_rules_fire c e cs Hmarks ec _ _ _ false X3). reflexivity.
+          -- destruct (run (S f) cs e (policy_body c v (mp_rules q)) p); cbn in X1; try discriminate; inversion X1; subst; reflexivity.
+        * destruct (run (S f) cs e (policy_body c v (mp_rules q)) p); cbn in X1; try discriminate; inversion X1; subst;
+            apply (group_skip c e cs Hmarks ret first Hfirst f pols (S k) _ true false); try reflexivity; try discriminate; exact X3.
+      + destruct X as (p' & X1 & X2). rewrite X1. reflexivity.
+      + destruct X as (p' & X1 & X2 & X3).
+        rewrite (after_group_collapse _ (RFall p')).
+        * cbn [after_group]. rewrite (ret_rules_skip c e cs Hmarks ec _ _ _ true X3).
+          transitivity (go cs e (run (S (S f)) cs e) (ret_rules ec c ++ inlined_jumps ec c pols ++ rs) p').
+          -- rewrite (ret_rules_skip c e cs Hmarks ec _ _ _ true X3). unfold inlined_jumps. symmetry. apply inlined_skip. exact X3.
+          -- destruct (run (S f) cs e (policy_body c v (mp_rules q)) p); cbn in X1; try discriminate; inversion X1; subst; reflexivity.
+        * destruct (run (S f) cs e (policy_body c v (mp_rules q)) p); cbn in X1; try discriminate; inversion X1; subst;
+            apply (group_skip c e cs Hmarks ret first Hfirst f pols (S k) _ false true); try reflexivity; try discriminate; exact X3.
+      + destruct X as (p' & X1 & X2 & X3).
+        pose proof (IH (S k) p' Hin' (wfp_unmark v _ _ X2 Hw) X3) as Y.
+        destruct (run (S f) cs e (policy_body c v (mp_rules q)) p); cbn in X1; try discriminate; inversion X1; subst;
+          rewrite Y, (ret_rules_skip c e cs Hmarks ec _ _ _ false X3); reflexivity.
+  Qed.
+
+  (* the jump to the group chain, followed by "return if accepted", IS the inlined sequence *)
+  Theorem group_inline_exact : forall gname pols p,
+    pols_in_cs c e cs v pols ->
+    lookup cs gname = Some (group_rules_gen ret first c 0 pols) ->
+    wfp v p -> st c false false (pk_mark p) ->
+    go cs e (run (S (S f)) cs e) (grouped_jumps ec c gname ++ rs) p
+    = go cs e (run (S (S f)) cs e) (inlined_jumps ec c pols ++ rs) p.
+  Proof.
+    intros gname pols p Hin L Hw Hst. unfold grouped_jumps. cbn [app].
+    rewrite (go_jump e cs _ _ _ _ _ _ (m_pass_clear c F e p false false Hst) L).
+    rewrite <- (group_inline_exact_gen pols 0 p Hin Hw Hst). unfold after_group.
+    change (run (S (S f)) cs e (group_rules_gen ret first c 0 pols) p) with (go cs e (run (S f) cs e) (group_rules_gen ret first c 0 pols) p).
+    destruct (go cs e (run (S f) cs e) (group_rules_gen ret first c 0 pols) p); reflexivity.
+  Qed.
+End Exact.
